@@ -11,6 +11,9 @@
 // Output: "case <id>", the scheduler's lines, "final queue=<n> running=<0|1>", "end".
 //   e T<i> call run <k> / ret run <k> / call stop / ret stop / call size / ret size <n>
 //   e T<i> x <k>          task k starts executing on T<i> (then the task parks at point "task")
+//   e T<i> init           worker T<i> ran the thread-init callback
+// A second stop() on a pool with threads aborts in muduo::Thread::join (assert(!joined_)): the child
+// dies and the parent prints "CRASH status=...".
 // Every trace line carries h=<holder_ of mutex_> n=<queue_.size()> r=<running_> read without the
 // lock (safe: exactly one thread runs).
 #include <stdint.h>
@@ -43,6 +46,7 @@ struct CaseDesc
 
 static std::map<pid_t, int> g_tid2idx;
 static muduo::ThreadPool* g_pool;
+static int g_nw;
 
 static void observe(string& line)
 {
@@ -63,6 +67,14 @@ static void observe(string& line)
 static void registerThread()
 {
   g_tid2idx[muduo::CurrentThread::tid()] = sched::self();
+}
+
+// ThreadPool::threadInitCallback_: runs at the top of runInThread in every worker (and in the caller of
+// start(0)); only the workers' calls are logged ("e T<w> init")
+static void initCallback()
+{
+  registerThread();
+  if (sched::self() >= 1 && sched::self() <= g_nw) sched::log("init");
 }
 
 static void taskBody(int k)
@@ -111,7 +123,8 @@ static void runCase(const CaseDesc& c)
   std::unique_ptr<muduo::ThreadPool> pool(new muduo::ThreadPool("p"));
   g_pool = pool.get();
   g_pool->setMaxQueueSize(c.maxq);
-  g_pool->setThreadInitCallback(registerThread);
+  g_nw = c.nw;
+  g_pool->setThreadInitCallback(initCallback);
   sched::name_mutex(g_pool->mutex_.getPthreadMutex());
   sched::name_cond(&g_pool->notEmpty_.pcond_);
   sched::name_cond(&g_pool->notFull_.pcond_);
